@@ -325,6 +325,15 @@ class Pragma(Instruction):
         return f"#pragma version {self._program_version}"
 
     @property
+    def cost(self) -> int:
+        """`#pragma` is an assembler directive, not an opcode: it has no execution cost.
+
+        Returns:
+            0
+        """
+        return 0
+
+    @property
     def program_version(self) -> int:
         """version number of teal program
 
@@ -1859,6 +1868,15 @@ class Label(InstructionWithLabel):
 
     def __str__(self) -> str:
         return f"{self._label}:"
+
+    @property
+    def cost(self) -> int:
+        """A label only names a location in the program, it is not an opcode and has no execution cost.
+
+        Returns:
+            0
+        """
+        return 0
 
 
 class Callsub(InstructionWithLabel):
